@@ -8,6 +8,7 @@ import (
 	"fmt"
 	"reflect"
 	"strconv"
+	"strings"
 
 	"github.com/brocaar/lorawan"
 	"github.com/brocaar/lorawan/band"
@@ -290,6 +291,9 @@ func (c *ctx) ownCase(ops []interface{}) {
 // reuse: decoding into a value that was used before must equal decoding into a fresh one
 func reuseEvent(typ string, mk func() interface{}, un func(p interface{}, b []byte) error, proj func(p interface{}) interface{}, b1, b2 []byte) M {
 	ev := M{"ev": "reuse", "type": typ, "b1": bs(b1), "b2": bs(b2)}
+	if strings.HasPrefix(typ, "al/") {
+		ev["al"] = true
+	}
 	used, fresh := mk(), mk()
 	exact := func(b []byte) []byte { c := make([]byte, len(b)); copy(c, b); return c } // len == cap: reading behind the end panics
 	r1, _ := observeFast(func() error { return un(used, exact(b1)) })
